@@ -934,6 +934,97 @@ Proof.
   unfold in_cs in Hin0. cbn in Hin0. rewrite Hpc in Hin0. discriminate.
 Qed.
 
+(* ---- transient failures of the store reads of the write path ([AResumeReadFail]) ----------------------------- *)
+(* the one case that does not fail: SaveMeta ignores the read error of GetTransaction and goes on, exactly as
+   [enter_exec] does when the transaction is found *)
+Lemma meta_go_spec t th u disk g uid :
+  tinv disk g uid t th -> t_gen th = g -> t_entry th = None -> t_resp th = None -> tx_th th = false ->
+  glob (set_th t (with_pc th (if rq_dry (t_req th) then PWait else PAppendEnter)) u) = glob u /\
+  exists th', (forall t', lookt (u_threads (set_th t (with_pc th (if rq_dry (t_req th) then PWait else PAppendEnter)) u)) t' =
+                          if Nat.eqb t t' then Some (erase th') else lookt (u_threads u) t') /\
+     tinv disk g uid t th' /\ in_cs th' = false /\ t_gen th' = g /\ t_entry th' = None.
+Proof.
+  intros Hti Hg He Hr Hk. unfold tx_th in Hk.
+  assert (Hx : forall p, p = PWait \/ p = PAppendEnter -> (p = PWait -> dry_th th = true) ->
+                  (p = PAppendEnter -> dry_th th = false) ->
+       glob (set_th t (with_pc th p) u) = glob u /\
+       exists th', (forall t', lookt (u_threads (set_th t (with_pc th p) u)) t' =
+                          if Nat.eqb t t' then Some (erase th') else lookt (u_threads u) t') /\
+         tinv disk g uid t th' /\ in_cs th' = false /\ t_gen th' = g /\ t_entry th' = None).
+  { intros p Hp Hd1 Hd2. split; [reflexivity|]. eexists; (split; [intros t'; cbn; rewrite lookt_set; reflexivity|]).
+    unfold run_ok, tx_th, dry_th in *.
+    destruct Hp; subst p; (split; [|repeat split; auto]); step_tac Hti; auto.
+    - rewrite Hd1 by auto. split; auto. congruence.
+    - split; auto. split; auto. congruence. }
+  unfold dry_th in Hx. destruct (rq_dry (t_req th)) eqn:Hd; apply Hx; auto; intros; discriminate.
+Qed.
+
+(* every failing case is a silent step of a thread outside the critical section, exactly like the refusals of
+   [resume]: the thread finishes with an error and no entry (at all these pcs no entry has been built) *)
+Lemma resume_read_fail_silent s t th s' :
+  Inv s -> get_thread (threads s) t = Some th -> resume_read_fail s t = Some s' ->
+  silent s t s' /\ in_cs th = false /\ t_pc th <> PFinished.
+Proof.
+  intros I Hget Hres.
+  pose proof (look_get _ _ _ Hget) as Hlook.
+  pose proof (i_thr _ I _ _ Hlook) as Hti. apply tinv_erase_2 in Hti.
+  unfold resume_read_fail in Hres. rewrite Hget in Hres.
+  destruct (Nat.eqb (t_gen th) (gen s)) eqn:Hg; simpl in Hres; [|discriminate]. apply Nat.eqb_eq in Hg.
+  pose proof Hti as [T1 T2 T3 T4 T5 T6 T7 T8].
+  unfold in_cs, pc_ok, run_ok, covers_th, tx_th, dry_th in *.
+  destruct (t_pc th) eqn:Hpc; try discriminate;
+    repeat match goal with H : _ /\ _ |- _ => destruct H end;
+    (split; [|split; [reflexivity|discriminate]]).
+  - (* PRevTaken: GetTransaction fails *) injection Hres as <-. silent_case Hlook Hg. step_tac Hti; tfin.
+  - (* PIkTaken: the key lookup fails *) injection Hres as <-. silent_case Hlook Hg. step_tac Hti; tfin.
+  - (* PIkLookup None *)
+    destruct hit as [e|]; [discriminate|].
+    destruct (rq_kind (t_req th)) eqn:Hk; try discriminate.
+    + (* create without reference: ResolveResources fails *)
+      destruct (N.eqb (rq_ref (t_req th)) 0); [|discriminate].
+      injection Hres as <-. silent_case Hlook Hg. step_tac Hti; tfin.
+    + (* SaveMeta ignores the error *)
+      destruct (rq_target_tx (t_req th)); [|discriminate]. injection Hres as <-. apply silent_enter.
+      * intros th0 Hl0; rewrite Hlook in Hl0; inversion Hl0; subst; exact Hg.
+      * rewrite Hlook. assumption.
+      * apply meta_go_spec; auto; [apply T3; discriminate|unfold tx_th; rewrite Hk; reflexivity].
+    + (* DeleteMetadata answers not-found *)
+      destruct (rq_target_tx (t_req th)); [|discriminate].
+      injection Hres as <-. silent_case Hlook Hg. step_tac Hti; tfin.
+  - (* PRefTaken: the reference lookup fails *) injection Hres as <-. silent_case Hlook Hg. step_tac Hti; tfin.
+  - (* PRefLookup false: ResolveResources fails *)
+    destruct hit; [discriminate|]. destruct (rq_kind (t_req th)) eqn:Hk; try discriminate.
+    injection Hres as <-. silent_case Hlook Hg. step_tac Hti; tfin.
+  - (* PLocked: ResolveBalances fails; the locks are released first *)
+    destruct (needs_balance th); [|discriminate]. injection Hres as <-.
+    match goal with |- silent _ _ (to_state _ (finish _ _ _ _ _ _ _ ?X)) => set (u1 := X) end.
+    assert (Hgl1 : glob u1 = glob (of_state s)) by (subst u1; apply unlock_glob).
+    assert (Hl1 : forall t', lookt (u_threads u1) t' = look s t') by (intros t'; subst u1; apply unlock_look).
+    clearbody u1.
+    eapply silent_intro;
+    [ exact Hgl1
+    | intros t'; cbn; rewrite lookt_set, Hl1; reflexivity
+    | intros th0 Hl0; rewrite Hlook in Hl0; inversion Hl0; subst; exact Hg
+    | cbn; exact Hg
+    | rewrite Hlook; cbn; reflexivity
+    | reflexivity
+    | cbn; congruence
+    | apply tinv_erase_1 ].
+    step_tac Hti; tfin.
+Qed.
+
+Lemma resume_read_fail_inv s t s' : Inv s -> resume_read_fail s t = Some s' -> Inv s'.
+Proof.
+  intros I Hres.
+  destruct (get_thread (threads s) t) as [th|] eqn:Hget;
+    [|unfold resume_read_fail in Hres; rewrite Hget in Hres; discriminate].
+  destruct (resume_read_fail_silent _ _ _ _ I Hget Hres) as (Hs & Hin & _).
+  eapply silent_inv; [exact I| |exact Hs].
+  intros Hc. destruct (i_cs _ I _ Hc) as (th0 & Hl0 & _ & Hin0 & _).
+  rewrite (look_get _ _ _ Hget) in Hl0. inversion Hl0; subst th0.
+  change (in_cs th = true) in Hin0. congruence.
+Qed.
+
 Lemma step_inv s a s' : Inv s -> step s a = Some s' -> Inv s'.
 Proof.
   intros I H. destruct a; simpl in H.
@@ -944,6 +1035,7 @@ Proof.
   - injection H as <-. apply crash_inv; auto.
   - eapply cancel_inv; eauto.
   - eapply resume_cancelled_inv; eauto.
+  - eapply resume_read_fail_inv; eauto.
 Qed.
 
 Lemma run_inv acts : forall s s', Inv s -> run s acts = Some s' -> Inv s'.
